@@ -1,4 +1,331 @@
-import BiomModel.C08
+/-
+  C08 — property theorems.  Everything is for EVERY table (any size, any values, any distinct IDs,
+  with or without metadata), EVERY well-formed layout of its matrix (any index order inside the
+  vectors, stored zeros allowed), EVERY mask / ID collection / user predicate.
+-/
+import BiomModel.Lemmas.C08
+
 namespace Biom.C08
-theorem mergeRow_unsorted_witness : mergeRow [9, 9, 9] [(2, (5 : Int)), (0, 7)] 0 = [0, 0, 5] := by decide
+
+variable {α : Type}
+
+/-! ## Kernel level -/
+
+/-- On strictly increasing minor indices the scratch-buffer loop rebuilds the TRUE dense vector,
+whatever the previous vector left in the buffer. -/
+theorem mergeRow_sorted [Zero α] (prev : List α) (ents : List (Nat × α)) (n : Nat) (hn : prev.length = n)
+    (h : (ents.map (·.1)).Pairwise (· < ·)) :
+    mergeRow prev ents 0 = CS.denseVec n ents :=
+  mergeRow_dense prev ents n hn h
+
+/-- …and on unsorted indices it does not: entry `(0, 7)` is lost and the stale buffer would survive in
+position 0 were it not overwritten by the `j < c` branch — why `Table.filter` must call `sort_indices()`. -/
+theorem mergeRow_unsorted_witness :
+    mergeRow [9, 9, 9] [(2, (5 : Int)), (0, 7)] 0 = [0, 0, 5] ∧
+    CS.denseVec 3 [(2, (5 : Int)), (0, 7)] = [7, 0, 5] ∧
+    mergeRow [9, 9, 9] [(1, (5 : Int)), (0, 7)] 0 = [0, 5, 9] := by decide
+
+/-- `_remove_rows_csr`, for EVERY well-formed layout (any index order, stored zeros allowed) and every
+mask of the right length: it succeeds (no bounds error although it compacts in place), its output is
+well-formed and its dense content is the input's content restricted to the masked vectors. -/
+theorem removeRows_ok [Zero α] (cs : CS α) (h : cs.WF) (mask : List Bool) (hm : mask.length = cs.nMajor) :
+    ∃ cs', removeRows cs mask = .ok cs' ∧ cs'.WF ∧ cs'.toDense = filterMask cs.toDense mask ∧
+      cs'.nMinor = cs.nMinor ∧ cs'.nMajor = mask.count true := by
+  refine ⟨keptSlices cs mask, removeRows_eq_kept cs h mask hm, keptSlices_wf cs h mask,
+    keptSlices_toDense cs mask, rfl, ?_⟩
+  show (filterMask (slices cs) mask).length = mask.count true
+  exact length_filterMask _ _ (by rw [slices_length]; omega)
+
+/-- the in-place loop and its functional twin (append the kept slices, prefix sums as `indptr`) agree -/
+theorem removeRows_simulation (cs : CS α) (h : cs.WF) (mask : List Bool) (hm : mask.length = cs.nMajor) :
+    removeRows cs mask = .ok (keptSlices cs mask) :=
+  removeRows_eq_kept cs h mask hm
+
+/-- scipy's `sort_indices` as modelled: same matrix, well-formed, indices sorted inside every vector -/
+theorem sortIndices_contract [Zero α] (cs : CS α) (h : cs.WF) :
+    (sortIndices cs).WF ∧ (sortIndices cs).SortedIndices ∧ (sortIndices cs).toDense = cs.toDense ∧
+    (sortIndices cs).nMajor = cs.nMajor ∧ (sortIndices cs).nMinor = cs.nMinor :=
+  ⟨sortIndices_wf cs h, sortIndices_sorted cs h, sortIndices_toDense cs h, sortIndices_nMajor cs, rfl⟩
+
+/-- the boolean array built from an ID collection: `KeyError` iff some ID is unknown, else position
+`i` is kept iff `ids[i]` was named, XOR invert -/
+theorem idMask_ok (ids keep : List Id) (invert : Bool) (hn : ids.Nodup) :
+    idMask ids keep invert =
+      if keep.all (fun k => ids.contains k) then .ok (ids.map (fun id => keep.contains id ^^ invert))
+      else .error .key :=
+  idMask_spec ids keep invert hn
+
+/-! ## `Table.filter` -/
+
+/-- the verdict a predicate gives on an ID, all three arguments looked up BY ID in the table -/
+def predVerdict (t : Table α) (ax : Axis) (p : Pred α) (invert : Bool) (id : Id) : Bool :=
+  verdictOf p invert (callById t ax id)
+
+theorem maskOf_pred_byId [Zero α] (t : Table α) (hwf : t.WF) (ax : Axis) (hn : (t.ids ax).Nodup)
+    (layout : CS α) (hl : LayoutOf t ax layout) (p : Pred α) (invert : Bool) :
+    maskOf t ax (.pred p) invert = (t.ids ax).map (predVerdict t ax p invert) := by
+  simp only [maskOf, callsSpec_byId t hwf ax hn layout hl, List.map_map]
+  rfl
+
+/-- ID-collection path: an unknown ID is a `KeyError` raised before anything is assigned; otherwise
+the result is the specification `filterAxis` with the mask "named XOR invert". -/
+theorem filter_ids_path [Zero α] (t : Table α) (hwf : t.WF) (ax : Axis) (hn : (t.ids ax).Nodup)
+    (layout : CS α) (hl : LayoutOf t ax layout) (l : List Id) (invert : Bool) :
+    tableFilter t layout ax (.ids l) invert =
+      if l.all (fun k => (t.ids ax).contains k) then
+        .ok (filterAxis t ((t.ids ax).map (fun id => l.contains id ^^ invert)) ax, [])
+      else .error .key := by
+  by_cases hall : l.all (fun k => (t.ids ax).contains k) = true
+  · rw [if_pos hall]
+    apply tableFilter_of_mask t hwf ax layout hl
+    · simp
+    · rw [computeMask_ids _ _ _ _ _ hn, if_pos hall]
+  · rw [if_neg hall]
+    unfold tableFilter filterKernel
+    rw [computeMask_ids _ _ _ _ _ hn, if_neg hall]
+
+/-- predicate path: the predicate is called once per ID, in order, with `(dense vector, id, md)`;
+the mask is its verdict XOR invert; the result is `filterAxis` with that mask. -/
+theorem filter_pred_path [Zero α] (t : Table α) (hwf : t.WF) (ax : Axis) (hn : (t.ids ax).Nodup)
+    (layout : CS α) (hl : LayoutOf t ax layout) (p : Pred α) (invert : Bool) :
+    tableFilter t layout ax (.pred p) invert =
+      .ok (filterAxis t ((t.ids ax).map (predVerdict t ax p invert)) ax, (t.ids ax).map (callById t ax)) := by
+  rw [← maskOf_pred_byId t hwf ax hn layout hl, ← callsSpec_byId t hwf ax hn layout hl]
+  apply tableFilter_of_mask t hwf ax layout hl
+  · exact maskOf_length t hwf ax layout hl _ _ (fun _ h => by cases h)
+  · exact computeMask_pred t hwf ax layout hl p invert
+
+theorem filter_other_path [Zero α] (t : Table α) (layout : CS α) (ax : Axis) (invert : Bool) :
+    tableFilter t layout ax .other invert = .error .type := rfl
+
+/-- what a filtered table must satisfy, in the property's own words -/
+structure FilterSpec (t r : Table α) (ax : Axis) (keepId : Id → Bool) : Prop where
+  /-- exactly the selected IDs, in their original relative order -/
+  ids : r.ids ax = (t.ids ax).filter keepId
+  /-- each with its original vector -/
+  vec : ∀ id ∈ r.ids ax, r.vec? ax id = t.vec? ax id
+  /-- and its original metadata -/
+  md : ∀ id ∈ r.ids ax, r.mdOf? ax id = t.mdOf? ax id
+  mdPresent : (r.md ax).isSome = (t.md ax).isSome
+  /-- the other axis is untouched -/
+  otherIds : r.ids ax.other = t.ids ax.other
+  otherMd : r.md ax.other = t.md ax.other
+  ttype : r.ttype = t.ttype
+  wf : r.WF
+
+theorem filterAxis_meets_spec (t : Table α) (hwf : t.WF) (ax : Axis) (hn : (t.ids ax).Nodup) (f : Id → Bool) :
+    FilterSpec t (filterAxis t ((t.ids ax).map f) ax) ax f where
+  ids := by rw [filterAxis_ids, filterMask_map_self]
+  vec := by
+    intro id hid
+    rw [filterAxis_ids] at hid
+    exact filterAxis_vec? t _ ax hn id hid
+  md := by
+    intro id hid
+    rw [filterAxis_ids] at hid
+    exact filterAxis_mdOf? t _ ax hn id hid
+  mdPresent := by rw [filterAxis_md]; cases t.md ax <;> rfl
+  otherIds := filterAxis_other_ids t _ ax
+  otherMd := filterAxis_other_md t _ ax
+  ttype := filterAxis_ttype t _ ax
+  wf := filterAxis_wf t hwf _ ax (by simp)
+
+/-- **filter_spec**, for ALL predicates `p`: the kept IDs are `[id | p(vec id, id, md id) xor invert]` in
+original order, vectors and metadata of the kept IDs are unchanged by ID, the other axis is untouched,
+and the predicate's call log lists every ID once, in order, with that ID's true vector and metadata. -/
+theorem filter_spec [Zero α] (t : Table α) (hwf : t.WF) (ax : Axis) (hn : (t.ids ax).Nodup)
+    (layout : CS α) (hl : LayoutOf t ax layout) (p : Pred α) (invert : Bool) :
+    ∃ r calls, tableFilter t layout ax (.pred p) invert = .ok (r, calls) ∧
+      FilterSpec t r ax (predVerdict t ax p invert) ∧
+      calls.map (·.id) = t.ids ax ∧
+      (∀ c ∈ calls, t.vec? ax c.id = some c.vec ∧ t.mdOf? ax c.id = c.md) := by
+  refine ⟨_, _, filter_pred_path t hwf ax hn layout hl p invert, filterAxis_meets_spec t hwf ax hn _, ?_, ?_⟩
+  · simp [List.map_map, Function.comp_def, callById]
+  · intro c hc
+    obtain ⟨id, hid, rfl⟩ := List.mem_map.mp hc
+    obtain ⟨i, hi, rfl⟩ := List.getElem_of_mem hid
+    have hv := vec?_getElem t hwf ax hn i hi (by rw [vecs_length t ax layout hl]; exact hi)
+    simp [callById, hv]
+
+/-- the same for ID collections (list, set, tuple, array — only membership matters) -/
+theorem filter_ids_spec [Zero α] (t : Table α) (hwf : t.WF) (ax : Axis) (hn : (t.ids ax).Nodup)
+    (layout : CS α) (hl : LayoutOf t ax layout) (l : List Id) (invert : Bool)
+    (hall : ∀ id ∈ l, id ∈ t.ids ax) :
+    ∃ r, tableFilter t layout ax (.ids l) invert = .ok (r, []) ∧
+      FilterSpec t r ax (fun id => l.contains id ^^ invert) := by
+  have h : l.all (fun k => (t.ids ax).contains k) = true := by
+    simpa [List.all_eq_true] using hall
+  refine ⟨_, ?_, filterAxis_meets_spec t hwf ax hn _⟩
+  rw [filter_ids_path t hwf ax hn layout hl, if_pos h]
+
+/-- **unknown_id_unchanged**: naming an ID that is not on the axis is an error, nothing is returned and
+the receiver is what it was — in place or not. -/
+theorem unknown_id_unchanged [Zero α] (t : Table α) (hwf : t.WF) (ax : Axis) (hn : (t.ids ax).Nodup)
+    (layout : CS α) (hl : LayoutOf t ax layout) (l : List Id) (invert inplace : Bool)
+    (bad : Id) (hb : bad ∈ l) (hnot : bad ∉ t.ids ax) :
+    (filterCall t layout ax (.ids l) invert inplace).result = .error .key ∧
+    (filterCall t layout ax (.ids l) invert inplace).after = t := by
+  have h : ¬ (l.all (fun k => (t.ids ax).contains k) = true) := by
+    intro hall
+    have := List.all_eq_true.mp hall bad hb
+    exact hnot (by simpa using this)
+  simp only [filterCall, filter_ids_path t hwf ax hn layout hl, if_neg h]
+  exact ⟨trivial, trivial⟩
+
+/-- the IDs a predicate accepts, as `holds`/the harness compute them -/
+theorem acceptedIds_eq [Zero α] (t : Table α) (hwf : t.WF) (ax : Axis) (hn : (t.ids ax).Nodup)
+    (layout : CS α) (hl : LayoutOf t ax layout) (p : Pred α) :
+    acceptedIds t ax p = (t.ids ax).filter (predVerdict t ax p false) := by
+  unfold acceptedIds
+  apply List.filter_congr
+  intro id hid
+  obtain ⟨i, hi, rfl⟩ := List.getElem_of_mem hid
+  have hv := vec?_getElem t hwf ax hn i hi (by rw [vecs_length t ax layout hl]; exact hi)
+  simp [hv, predVerdict, verdictOf, callById]
+
+/-- **pred_eq_idlist**: filtering by a predicate and filtering by the list of IDs that predicate accepts
+give equal tables (whatever layouts scipy holds for the two calls). -/
+theorem pred_eq_idlist [Zero α] (t : Table α) (hwf : t.WF) (ax : Axis) (hn : (t.ids ax).Nodup)
+    (layout layout' : CS α) (hl : LayoutOf t ax layout) (hl' : LayoutOf t ax layout') (p : Pred α) (invert : Bool) :
+    (tableFilter t layout ax (.pred p) invert).map (·.1) =
+    (tableFilter t layout' ax (.ids (acceptedIds t ax p)) invert).map (·.1) := by
+  have hall : (acceptedIds t ax p).all (fun k => (t.ids ax).contains k) = true := by
+    rw [List.all_eq_true]
+    intro id hid
+    rw [acceptedIds_eq t hwf ax hn layout hl] at hid
+    simpa using (List.mem_filter.mp hid).1
+  rw [filter_pred_path t hwf ax hn layout hl, filter_ids_path t hwf ax hn layout' hl', if_pos hall]
+  simp only [Except.map]
+  congr 2
+  apply List.map_congr_left
+  intro id hid
+  rw [acceptedIds_eq t hwf ax hn layout hl]
+  have : ((t.ids ax).filter (predVerdict t ax p false)).contains id = predVerdict t ax p false id := by
+    rw [Bool.eq_iff_iff]
+    simp [List.mem_filter, hid]
+  rw [this]
+  simp [predVerdict, verdictOf]
+
+/-! ## `holds` is true of the model's observation -/
+
+open Codec in
+theorem allV_nil_of_all_none (vs : List Verdict) (h : ∀ v ∈ vs, v = none) : allV vs = none := by
+  unfold allV
+  suffices ∀ (acc : Verdict), acc = none → vs.foldl Verdict.and acc = none from this none rfl
+  induction vs with
+  | nil => intro acc ha; exact ha
+  | cons v vs ih =>
+    intro acc ha
+    have hv := h v List.mem_cons_self
+    subst ha hv
+    exact ih (fun w hw => h w (List.mem_cons_of_mem _ hw)) _ rfl
+
+open Codec in
+theorem chk_true (c : String) : chk c true = none := rfl
+
+theorem eqb_self {β : Type} [DecidableEq β] (a : β) : eqb a a = true := by simp [eqb]
+
+theorem eqb_of_eq {β : Type} [DecidableEq β] (a b : β) (h : a = b) : eqb a b = true := by simp [eqb, h]
+
+open Codec in
+theorem resultClauses_of_spec [DecidableEq α] (t r : Table α) (ax : Axis) (f : Id → Bool)
+    (h : FilterSpec t r ax f) : resultClauses t r ax ((t.ids ax).filter f) = none := by
+  unfold resultClauses
+  apply allV_nil_of_all_none
+  intro v hv
+  simp only [List.mem_cons, List.not_mem_nil, or_false] at hv
+  rcases hv with rfl | rfl | rfl | rfl | rfl | rfl | rfl
+  · rw [wfb_of_wf r h.wf]; rfl
+  · rw [eqb_of_eq _ _ h.ids]; rfl
+  · rw [eqb_of_eq _ _ h.otherIds]; rfl
+  · have : ((t.ids ax).filter f).all (fun id => eqb (r.vec? ax id) (t.vec? ax id)) = true := by
+      rw [List.all_eq_true]
+      intro id hid
+      exact eqb_of_eq _ _ (h.vec id (h.ids ▸ hid))
+    rw [this]; rfl
+  · have : ((t.ids ax).filter f).all (fun id => eqb (r.mdOf? ax id) (t.mdOf? ax id)) = true := by
+      rw [List.all_eq_true]
+      intro id hid
+      exact eqb_of_eq _ _ (h.md id (h.ids ▸ hid))
+    rw [this, eqb_of_eq _ _ h.mdPresent]; rfl
+  · rw [eqb_of_eq _ _ h.otherMd]; rfl
+  · rw [eqb_of_eq _ _ h.ttype]; rfl
+
+theorem keptIds_pred [Zero α] [DecidableEq α] (t : Table α) (hwf : t.WF) (ax : Axis) (hn : (t.ids ax).Nodup)
+    (layout : CS α) (hl : LayoutOf t ax layout) (p : Pred α) (invert : Bool) :
+    keptIds t ax (.pred p) invert = (t.ids ax).filter (predVerdict t ax p invert) := by
+  unfold keptIds
+  apply List.filter_congr
+  intro id hid
+  obtain ⟨i, hi, rfl⟩ := List.getElem_of_mem hid
+  have hv := vec?_getElem t hwf ax hn i hi (by rw [vecs_length t ax layout hl]; exact hi)
+  simp [hv, predVerdict, verdictOf, callById]
+
+/-- **model_holds** (filter): for every table of the C01 domain, every layout scipy may hold for it,
+every ID collection, every predicate, invert and inplace, the declarative predicate `holdsFilter`
+is true of what the model of `Table.filter` produces. -/
+theorem model_holds [Zero α] [DecidableEq α] (t : Table α) (hwf : t.WF) (ax : Axis) (hn : (t.ids ax).Nodup)
+    (layout : CS α) (hl : LayoutOf t ax layout) (keep : Keep α) (invert inplace : Bool) :
+    holdsFilter t ax keep invert inplace (modelFilterObs t layout ax keep invert inplace) = true := by
+  unfold holdsFilter
+  rw [Option.isNone_iff_eq_none]
+  cases keep with
+  | other =>
+    simp only [verdictFilter, modelFilterObs, filterCall, filter_other_path, errOf, Option.isSome_some, eqb_self,
+      Bool.and_self]
+    rfl
+  | ids l =>
+    simp only [verdictFilter, modelFilterObs, filterCall, filter_ids_path t hwf ax hn layout hl]
+    by_cases hall : l.all (fun k => (t.ids ax).contains k) = true
+    · simp only [hall, if_true]
+      apply allV_nil_of_all_none
+      intro v hv
+      simp only [List.mem_cons, List.not_mem_nil, or_false] at hv
+      rcases hv with rfl | rfl | rfl
+      · exact resultClauses_of_spec t _ ax _ (filterAxis_meets_spec t hwf ax hn _)
+      · rw [eqb_self]; rfl
+      · rw [eqb_self]; rfl
+    · simp only [hall, Bool.false_eq_true, if_false]
+      apply allV_nil_of_all_none
+      intro v hv
+      simp only [List.mem_cons, List.not_mem_nil, or_false] at hv
+      rcases hv with rfl | rfl
+      · rfl
+      · rw [eqb_self]; rfl
+  | pred p =>
+    have hall : (acceptedIds t ax p).all (fun k => (t.ids ax).contains k) = true := by
+      rw [List.all_eq_true]
+      intro id hid
+      rw [acceptedIds_eq t hwf ax hn layout hl] at hid
+      simpa using (List.mem_filter.mp hid).1
+    have hvia := pred_eq_idlist t hwf ax hn layout layout hl hl p invert
+    rw [filter_pred_path t hwf ax hn layout hl, filter_ids_path t hwf ax hn layout hl, if_pos hall] at hvia
+    simp only [Except.map, Except.ok.injEq] at hvia
+    simp only [verdictFilter, modelFilterObs, filterCall, filter_pred_path t hwf ax hn layout hl,
+      filter_ids_path t hwf ax hn layout hl, hall, if_true]
+    apply allV_nil_of_all_none
+    intro v hv
+    simp only [List.mem_cons, List.not_mem_nil, or_false] at hv
+    rcases hv with rfl | rfl | rfl | rfl | rfl | rfl
+    · rw [eqb_of_eq]; rfl
+      simp [List.map_map, Function.comp_def, callById]
+    · have : ((t.ids ax).map (callById t ax)).all (fun c => eqb (t.vec? ax c.id) (some c.vec)) = true := by
+        rw [List.all_eq_true]
+        intro c hc
+        obtain ⟨id, hid, rfl⟩ := List.mem_map.mp hc
+        obtain ⟨i, hi, rfl⟩ := List.getElem_of_mem hid
+        have hv := vec?_getElem t hwf ax hn i hi (by rw [vecs_length t ax layout hl]; exact hi)
+        exact eqb_of_eq _ _ (by simp [callById, hv])
+      rw [this]; rfl
+    · have : ((t.ids ax).map (callById t ax)).all (fun c => eqb (t.mdOf? ax c.id) c.md) = true := by
+        rw [List.all_eq_true]
+        intro c hc
+        obtain ⟨id, _, rfl⟩ := List.mem_map.mp hc
+        exact eqb_self _
+      rw [this]; rfl
+    · rw [keptIds_pred t hwf ax hn layout hl]
+      exact resultClauses_of_spec t _ ax _ (filterAxis_meets_spec t hwf ax hn _)
+    · rw [eqb_self]; rfl
+    · rw [eqb_of_eq _ _ hvia.symm]; rfl
+
 end Biom.C08
